@@ -45,6 +45,12 @@ let parse_case (case : string) (histpart : string) : parsed res =
         List.map (fun r ->
             match String.split_on_char ':' r with
             | [s; e; ct] -> { r_start = n_of_string s; r_end = n_of_string e; r_alloc = ai_zero; r_ctotal = n_of_string ct }
+            | [s; e; ct; al] ->
+              (* `al` allocations of a Box<u64>, each freed again within the timed section *)
+              let a = n_of_string al in
+              let bytes = N.mul a (n_of_small 8) in
+              { r_start = n_of_string s; r_end = n_of_string e; r_ctotal = n_of_string ct;
+                r_alloc = { ai_zero with ai_alloc_c = a; ai_alloc_s = bytes; ai_dealloc_c = a; ai_dealloc_s = bytes } }
             | _ -> failwith "raw") (split_on ',' round))
         (split_on ';' (get h "h" "")) in
     Ok { cfg; threads = int_of_string (get t "T" "1"); init; hist }
@@ -57,10 +63,17 @@ let split_bar line =
   | Some i -> (String.sub line 0 i, String.sub line (i + 3) (n - i - 3))
   | None -> (line, "")
 
-let seen_line (s : seen) =
-  Printf.sprintf "K=%d sizes=%s calls=%s rag=0 fs=%s dur=%s ak=%s cnt=%s ss=%s si=%s"
+let alloc_s ((i, a) : n * alloc_info) =
+  String.concat ":" (List.map string_of_n [i; a.ai_alloc_c; a.ai_alloc_s; a.ai_dealloc_c; a.ai_grow_c; a.ai_shrink_c])
+
+(* the dump lists alloc_info_by_sample sorted by key *)
+let sorted_allocs (st : state) =
+  List.sort (fun (i, _) (j, _) -> compare (int_of_n i) (int_of_n j)) st.s_store.st_allocs
+
+let seen_line (st : state) (s : seen) =
+  Printf.sprintf "K=%d sizes=%s calls=%s rag=0 fs=%s dur=%s ai=%s cnt=%s ss=%s si=%s"
     (List.length s.o_sizes) (list_s string_of_n s.o_sizes) (list_s string_of_n s.o_calls)
-    (string_of_n s.o_final_size) (list_s string_of_n s.o_samples) (list_s string_of_n s.o_alloc_keys)
+    (string_of_n s.o_final_size) (list_s string_of_n s.o_samples) (list_s alloc_s (sorted_allocs st))
     (list_s string_of_n s.o_counts) (string_of_n s.o_stat_samples) (string_of_n s.o_stat_iters)
 
 let model line =
@@ -73,7 +86,7 @@ let model line =
     | Ok out ->
       match seen_of_outcome (nat_of_int p.threads) out with
       | Panic e -> "panic " ^ string_of_panic e
-      | Ok s -> (if out_done out then "ok " else "starved ") ^ seen_line s
+      | Ok s -> (if out_done out then "ok " else "starved ") ^ seen_line (out_state out) s
 
 (* impl line "ok K=.. sizes=.. ... | vt=.. init=.. h=.." -> seen *)
 let list_n s = List.map n_of_string (split_on ',' s)
@@ -86,7 +99,8 @@ let parse_seen (obs : string) : seen option =
     match num "fs", num "ss", num "si" with
     | Some fs, Some ss, Some si when get t "rag" "1" = "0" ->
       Some { o_done = true; o_sizes = list_n (get t "sizes" ""); o_calls = list_n (get t "calls" "");
-             o_final_size = fs; o_samples = list_n (get t "dur" ""); o_alloc_keys = list_n (get t "ak" "");
+             o_final_size = fs; o_samples = list_n (get t "dur" "");
+             o_alloc_keys = List.map (fun e -> n_of_string (List.hd (String.split_on_char ':' e))) (split_on ',' (get t "ai" ""));
              o_counts = list_n (get t "cnt" ""); o_stat_samples = ss; o_stat_iters = si }
     | _ -> None
 
